@@ -210,6 +210,11 @@ def check(tier='quick', seed=0, part=0, of=1):
     if r is not None:
         return fail(clause=r)
     n += 3
+    r = option_formats(mod)
+    if r['reproduced']:
+        r['cases'] += n
+        return r
+    n += r['cases']
     r = good_numbers(mod)
     if r is not None:
         return fail(clause=r)
@@ -252,6 +257,57 @@ def construct(mod):
         except RuntimeError:
             pass
     return None
+
+
+def option_formats(mod):
+    """the centre switch in every documented format (bool, 3-tuple, 3-list, x/y/z dict; both values in every position) and scalar / common forms of
+    the other direction-specific options: every direction of the mesh construct_mesh returns meets the postconditions for what was requested in
+    THAT direction -- judged from the returned origin and widths only"""
+    n = 0
+
+    def fail(**kw):
+        kw.update(reproduced=True, cases=n, how='contracts.c16_concrete.option_formats on the real emg3d.meshes.construct_mesh')
+        return kw
+    sets = [dict(frequency=1.0, properties=[1.0, 2.0, 0.5], center=(0.0, 15.0, -40.0), domain=([-1000.0, 1000.0], [-600.0, 700.0], [-900.0, 300.0]),
+                 stretching=[1.0, 1.5], lambda_factor=1.0, max_buffer=100000.0),
+            dict(frequency=-2.0, properties=0.5, center=(10.0, 20.0, 30.0), domain=[-400.0, 900.0], stretching=[1.1, 1.3], lambda_factor=0.7, max_buffer=4000.0)]
+    triples = [(True, True, True), (False, False, False), (True, False, True), (False, True, False), (False, False, True)]
+    forms = []
+    for t in triples:
+        if len(set(t)) == 1:
+            forms.append(('bool', t[0], t))
+        forms.append(('tuple', tuple(t), t))
+        forms.append(('dict', dict(zip('xyz', t)), t))
+    forms.append(('list', [False, True, True], (False, True, True)))
+    forms.append(('tuple with None', (False, None, True), (False, None, True)))
+    extras = [dict(), dict(min_width_pps=5), dict(min_width_limits=35.0), dict(min_width_pps=(3, 4, 5), min_width_limits={'x': [20.0, 60.0], 'y': None, 'z': 25.0})]
+    with warnings.catch_warnings():
+        warnings.simplefilter('ignore')
+        for k, (ps, (fname, fval, want)) in enumerate(itertools.product(sets, forms)):
+            extra = extras[k % len(extras)]
+            n += 1
+            try:
+                mesh = mod.construct_mesh(center_on_edge=fval, **ps, **extra)
+            except RuntimeError:
+                continue            # loud failure: permitted
+            props = ps['properties']
+            P = [props] * 3 if not isinstance(props, list) else props
+            for d in range(3):
+                if want[d] is None:
+                    continue
+                tri = [P[0], P[1], P[2]] if d == 2 else [P[0], P[2], P[2]]
+                dom = ps['domain'][d] if isinstance(ps['domain'], tuple) else ps['domain']
+                bad = postconditions(mesh.origin[d], mesh.h[d], freq=ps['frequency'], cond3=(1 / np.array(tri)).tolist(), center=ps['center'][d], domain=dom,
+                                     vector=None, seasurface=None, stretching=tuple(ps['stretching']), lambda_factor=ps['lambda_factor'],
+                                     max_buffer=ps['max_buffer'], lambda_from_center=False, cell_numbers=mod.good_mg_cell_nr(), center_on_edge=want[d], warned=False)
+                if bad is None and not want[d]:
+                    nodes = mesh.origin[d] + np.r_[0.0, np.cumsum(mesh.h[d])]
+                    if np.min(np.abs(nodes - ps['center'][d])) <= 1e-9 * max(abs(nodes[0]), abs(nodes[-1]), 1.0):
+                        bad = 'centre is a node although a cell centre was requested'
+                if bad:
+                    return fail(clause=f'construct_mesh direction {"xyz"[d]}: {bad}', case=dict(center_on_edge=repr(fval), format=fname, requested=list(want),
+                                                                                                 **{a: repr(b) for a, b in {**ps, **extra}.items()}))
+    return dict(reproduced=False, cases=n)
 
 
 def good_numbers(mod):
